@@ -111,7 +111,7 @@ class C16(Prop):
                     i = rng.choice(free_ids)
                     free_ids.remove(i)
                     r = rng.random()
-                    w = cap if r < 0.25 else 1 if r < 0.5 else rng.randint(1, cap)
+                    w = cap if r < 0.25 else 1 if r < 0.45 else 0 if r < 0.55 else rng.randint(0, cap)   # worker.py really uses 0 mcpu
                     g.append(['a', i, w])
             if g:
                 groups.append(g)
@@ -131,7 +131,7 @@ class C16(Prop):
             acqs = []
             if len(active) < max_tasks:
                 i = min(j for j in range(max_tasks) if j not in active)
-                acqs = [['a', i, w] for w in range(1, cap + 1)]
+                acqs = [['a', i, w] for w in range(0, cap + 1)]      # weight 0 included
             rels = [['r', i] for i in sorted(holders)]
             nxt = [[o] for o in acqs + rels]
             if pairs:
@@ -260,7 +260,7 @@ class C16(Prop):
     def _check(self, c):
         """the property, on what the real class did.  returns (message or None, measurements)"""
         cap = c['cap']
-        m = {'queued': 0, 'multi': 0, 'follower': 0, 'behind_queue': 0, 'same_iter': 0, 'woken_then_release': 0, 'woken_then_acquire': 0}
+        m = {'zero': 0, 'zero_queued': 0, 'queued': 0, 'multi': 0, 'follower': 0, 'behind_queue': 0, 'same_iter': 0, 'woken_then_release': 0, 'woken_then_acquire': 0}
         groups = self._groups(c)
         if any(o[0] == 'a' and o[2] > cap for g in groups for o in g):
             return None, m  # outside the quantifier (weights <= capacity)
@@ -268,6 +268,9 @@ class C16(Prop):
         weights = {}
         pending = []          # arrived, not yet in a body: arrival order
         inbody = set()
+        arrival_no = {}       # task -> arrival index (of its current incarnation)
+        last_served = -1      # largest arrival index that ever entered a body
+        n_arrived = 0
         for k, (g, ob) in enumerate(zip(groups, obs)):
             if ob is None:
                 return None, m  # the op list does not respect the protocol: outside the quantifier
@@ -278,6 +281,8 @@ class C16(Prop):
                 if o[0] == 'a':
                     weights[o[1]] = o[2]
                     pending.append(o[1])
+                    arrival_no[o[1]] = n_arrived
+                    n_arrived += 1
                 else:
                     inbody.discard(o[1])
             n_waited = 0
@@ -311,6 +316,7 @@ class C16(Prop):
                         m['woken_then_acquire'] += 1
                 pending.remove(i)
                 inbody.add(i)
+                last_served = max(last_served, arrival_no[i])
             # at rest
             v, h = ob['v'], ob['h']
             rest = f'after {at}'
@@ -321,6 +327,9 @@ class C16(Prop):
                 return f'{rest}: value {v} + held {held} != capacity {cap} (in a body: {h})', m
             if set(h) != inbody:
                 return f'{rest}: in a body {sorted(h)} but expected {sorted(inbody)} from the entries and exits observed', m
+            if pending and arrival_no[pending[0]] < last_served:
+                return (f'{rest}: task {pending[0]} still waits although a later arrival has been served (weight-independent FIFO '
+                        f'check; covers waiters of weight 0, which reserve nothing)'), m
             if pending and not v < weights[pending[0]]:
                 return f'{rest}: head of queue {pending[0]} (weight {weights[pending[0]]}) is blocked although value is {v}', m
             if not h and pending:
@@ -328,6 +337,10 @@ class C16(Prop):
             # measurements
             rels = [o for o in g if o[0] == 'r']
             for o in g:
+                if o[0] == 'a' and o[2] == 0:
+                    m['zero'] += 1
+                    if o[1] in pending:
+                        m['zero_queued'] += 1
                 if o[0] == 'a' and o[1] in pending:
                     m['queued'] += 1
                     if weights[o[1]] <= v and pending[0] != o[1]:
@@ -358,7 +371,8 @@ class C16(Prop):
         for k, name in (('multi', 'group-wakes>=2'), ('follower', 'blocked-head-with-fitting-follower'),
                         ('behind_queue', 'fitting-arrival-behind-queue'), ('same_iter', 'same-iteration-group'),
                         ('woken_then_release', 'two-releases-before-woken-waiter-runs'),
-                        ('woken_then_acquire', 'acquire-between-wake-up-and-resume')):
+                        ('woken_then_acquire', 'acquire-between-wake-up-and-resume'), ('zero', 'weight-0-acquire'),
+                        ('zero_queued', 'weight-0-waiter-queued')):
             if m[k]:
                 tags.append(name)
         return (json.dumps(c, sort_keys=True) if m['queued'] else None, tags)
